@@ -213,6 +213,7 @@ def _proxy_kw(url, **kw):
 
 PXSKIP = ("cancel-native", "random")
 add(Scenario("fwd-max1-AAB", _proxy_kw(PROXY, max_connections=1), [c("r1", A + "/1"), c("r2", A + "/2"), c("r3", B + "/3")], world=world_proxy, enc={"proxy_origin": PROXY}, skip=PXSKIP))
+add(Scenario("fwd-max1-AAA", _proxy_kw(PROXY, max_connections=1), [c("r1", A + "/1?q=1"), c("r2", A + "/2?q=2"), c("r3", A + "/3?q=3")], world=world_proxy, enc={"proxy_origin": PROXY}, skip=PXSKIP))
 add(Scenario("tun-max1-AAB", _proxy_kw(PROXY, max_connections=1), [c("r1", SA + "/1"), c("r2", SA + "/2"), c("r3", "https://b.test/3")], world=world_proxy, enc={"proxy_origin": PROXY}, skip=PXSKIP))
 add(Scenario("socks-max1-AAB", _proxy_kw(SOCKS, max_connections=1), [c("r1", SA + "/1"), c("r2", A + "/2"), c("r3", SA + "/3")], world=world_socks, enc={"proxy_origin": "socks5://proxy.test:1080"}, skip=PXSKIP))
 
